@@ -101,8 +101,20 @@ func (g *bgen) yield(name string, idx, depth int) bElem {
 			e.argOrd = append(e.argOrd, a)
 		}
 	}
-	if len(e.argOrd) == 2 && g.r.Bool() {
-		e.argOrd[0], e.argOrd[1] = e.argOrd[1], e.argOrd[0]
+	// arguments the definition does not declare are bound too, and never replace a declared default
+	for _, a := range []string{"x", "zz"} {
+		if g.r.Chance(20) {
+			e.args[a] = fmt.Sprint(g.r.Intn(9))
+			e.argOrd = append(e.argOrd, a)
+		}
+	}
+	if len(e.argOrd) >= 2 && g.r.Bool() {
+		perm := g.r.Perm(len(e.argOrd))
+		ord := make([]string, len(perm))
+		for i, k := range perm {
+			ord[i] = e.argOrd[k]
+		}
+		e.argOrd = ord
 	}
 	if g.r.Chance(50) {
 		e.hasCont = true
